@@ -76,6 +76,7 @@ package reftable
 //@   modifies nothing
 //@   assumes[model-restart-key] (err == nil) == rkeyOK(buf, off) && (err == nil ==> key == rkeyAt(buf, off))
 //@   ensures[reads-a-full-key] {C02, C01} err == nil ==> off < len(buf) && buf[off] == 0
+//@   ensures[rejects-only-a-malformed-entry] {C02, C01} err != nil && len(buf) < 4294967296 && off < len(buf) && buf[off] == 0 && vlen(buf[off+1:]) >= 1 ==> vval(buf[off+1:]) / 8 > len(buf) - off - 1 - vlen(buf[off+1:])
 //@   ensures[length-of-the-full-key] {C02, C01} err == nil && len(buf) < 4294967296 && vlen(buf[off+1:]) >= 1 ==> len(key) == vval(buf[off+1:]) / 8
 //@   ensures[bytes-of-the-full-key] {C02, C01} err == nil && len(buf) < 4294967296 && vlen(buf[off+1:]) >= 1 ==> (forall t int :: 0 <= t && t < len(key) ==> key[t] == buf[off + 1 + vlen(buf[off+1:]) + t])
 
